@@ -163,6 +163,7 @@ func lineCase(iters, num string, tag string, withSpec bool) {
 	run(myid, func() string {
 		return fmt.Sprintf("case %d kind=line iters=%s num=%s spec=%d tag=%s+hang\n", myid, hx.HexS(iters), hx.HexS(num), b01(withSpec), tag)
 	}, func(p func(string, ...any)) {
+		ib0, nb0 := append([]byte(nil), ib...), append([]byte(nil), nb...)
 		// mechanisms reached
 		mant, exp, neg, trunc, hex, ok := bytesconv.VerifReadFloat(nb)
 		pf, pferr := bytesconv.ParseFloat(nb, 64)
@@ -231,6 +232,38 @@ func lineCase(iters, num string, tag string, withSpec bool) {
 			si, sierr := strconv.Atoi(iters)
 			p("sobs %d strconv val=%s iters=%s\n", myid, specVal(sf, sferr), specInt(si, sierr))
 			p("sobs %d direct val=%s ratof=%s iters=%s\n", myid, specVal(pf, pferr), specVal(ra, raerr), specInt(ai, aierr))
+		}
+		// aliasing: no call may have written into its input, and nothing that was returned (the
+		// errors quote the text) may depend on the caller's buffer afterwards
+		in := "kept"
+		if !bytes.Equal(ib, ib0) || !bytes.Equal(nb, nb0) {
+			in = "CHANGED"
+		}
+		errText := func() string {
+			t := ""
+			for _, e := range []error{pferr, raerr, aierr, pierr, puerr} {
+				if e != nil {
+					t += e.Error()
+				}
+				t += "|"
+			}
+			return t
+		}
+		before := errText()
+		for i := range nb {
+			nb[i] ^= 0xA5
+		}
+		for i := range ib {
+			ib[i] ^= 0xA5
+		}
+		if errText() == before {
+			in += ":stable"
+		} else {
+			in += ":UNSTABLE"
+		}
+		p("obs %d in=%s\n", myid, in)
+		if withSpec {
+			p("sobs %d in=%s\n", myid, in)
 		}
 	})
 }
@@ -495,14 +528,26 @@ func dfbCase(digits string, dp int, neg, trunc bool) {
 	})
 }
 
-func cheatsCase() {
+// stateCase: the package-level state that outlives a call (run at the start AND at the end of the
+// run, like the two tables: nothing may have been written to it in between)
+func stateCase(all bool) {
+	if all || mine(id) {
+		hx.Printf("case %d kind=state tag=table\n", id)
+		st := bytesconv.VerifState()
+		hx.Printf("obs %d %s\n", id, st)
+		hx.Printf("sobs %d %s\n", id, st)
+	}
+	id++
+}
+
+func cheatsCase(all bool) {
 	t := bytesconv.VerifLeftCheats()
 	var parts []string
 	for _, e := range t {
 		i := strings.IndexByte(e, ':')
 		parts = append(parts, e[:i]+":"+hexOrDash([]byte(e[i+1:])))
 	}
-	if mine(id) {
+	if all || mine(id) {
 		hx.Printf("case %d kind=cheats tag=table\n", id)
 		hx.Printf("obs %d n=%d tab=%s\n", id, len(t), strings.Join(parts, ","))
 	}
@@ -543,13 +588,13 @@ func randDecimalDigits(r *hx.Rand) string {
 	return s
 }
 
-func tableCase() {
+func tableCase(all bool) {
 	t := bytesconv.VerifPow10Table()
 	var parts []string
 	for _, f := range t {
 		parts = append(parts, hx.F64(f))
 	}
-	if mine(id) {
+	if all || mine(id) {
 		hx.Printf("case %d kind=table tag=table\n", id)
 		hx.Printf("obs %d n=%d tab=%s\n", id, len(t), strings.Join(parts, ","))
 	}
@@ -1139,8 +1184,16 @@ func main() {
 	defer hx.Flush()
 	r := hx.NewRand(0xC03)
 
-	tableCase()
-	cheatsCase()
+	tableCase(false)
+	cheatsCase(false)
+	stateCase(false)
+	defer func() {
+		// once more at the end of EVERY shard's process, after all its other cases
+		tableCase(true)
+		cheatsCase(true)
+		stateCase(true)
+		hx.Flush()
+	}()
 
 	// fixed corpus: the witnesses and boundary literals run first, every time
 	for _, s := range maxNeighbourhood {
